@@ -184,6 +184,44 @@ def rule_wallet_config(ctx: Ctx, rep: Report) -> None:
     rule_config_forwarded(ctx, rep, "C14.wallet_config", "btclib.wallet.descriptor_wallet.DescriptorWallet", {"prv_keys": "prv_keys"}, 4, fallback_pkg="btclib.descriptors")
 
 
+HASH_SPLIT_OK = {
+    "btclib.descriptors.descriptors.strip_checksum": "the one place the checksum is split off -- and verified",
+    "btclib.core_import._comparable": "compares a wallet's own listing, which may hold descriptors this library refuses; the text is never parsed from here (reviewed)",
+}
+
+
+def rule_checksum_split(ctx: Ctx, rep: Report) -> None:
+    """C14.checksum_split: only `strip_checksum` takes a descriptor apart at its
+    '#': it is the function that compares the eight characters with the ones
+    computed, so any other `partition('#')` / `split('#')` / `find('#')` is a
+    way past the checksum -- a corrupted descriptor is then expanded or parsed
+    (and handed a fresh, valid checksum) instead of refused."""
+    rule = "C14.checksum_split"
+    n = 0
+    for fi in sorted(ctx.prog.functions.values(), key=lambda f: f.qualname):
+        if not (fi.module.name.startswith("btclib.descriptors") or fi.module.name.startswith("btclib.wallet") or fi.module.name == "btclib.core_import"):
+            continue
+        for c in own_nodes(fi.node):
+            if isinstance(c, ast.Call) and isinstance(c.func, ast.Attribute) and c.func.attr in ("partition", "rpartition", "split", "rsplit", "find", "rfind", "index") \
+                    and c.args and isinstance(c.args[0], ast.Constant) and c.args[0].value == "#":
+                n += 1
+                why = HASH_SPLIT_OK.get(fi.qualname)
+                rep.ob(rule, f"{fi.qualname}:{norm(c)[:50]}", why is not None, fi.where(c), f"reviewed: {why}" if why else
+                       f"`{norm(c)}` takes the checksum off without comparing it: the body is used whatever the eight characters say")
+    sc = ctx.func(f"{DS}.strip_checksum")
+    rep.ob(rule, "strip_checksum:is_the_splitter", any(isinstance(c, ast.Call) and isinstance(c.func, ast.Attribute) and c.func.attr == "partition" for c in own_nodes(sc.node)), sc.where(), "strip_checksum splits at '#'")
+    # and the entry points that take descriptor text go through it
+    for q in (f"{DS}.multipath_descriptors", f"{DS}.parse", f"{DS}.add_checksum"):
+        fi = ctx.prog.functions.get(q)
+        if fi is None:
+            continue
+        g = ctx.cfg(fi)
+        calls = [c for c in own_nodes(fi.node) if isinstance(c, ast.Call) and call_name(c) == "strip_checksum" and c.args and norm(c.args[0]) == fi.params()[0]]
+        ok = bool(calls) and any(ctx.unconditional(g, c) for c in calls)
+        rep.ob(rule, f"{q.rsplit('.', 1)[1]}:through_strip_checksum", ok, fi.where(), "its text goes through strip_checksum on every path" if ok else "the descriptor text is used without strip_checksum")
+    rep.floor(rule, 4)
+
+
 def rule_is_mine(ctx: Ctx, rep: Report) -> None:
     """C14.is_mine: recognition is whole-script equality over every branch and index."""
     rule = "C14.is_mine"
@@ -281,12 +319,15 @@ RULES = [
     ("C14.checksum_gate", rule_checksum_gate),
     ("C14.grammar", rule_grammar),
     ("C14.is_mine", rule_is_mine),
+    ("C14.checksum_split", rule_checksum_split),
     ("C14.wallet_config", rule_wallet_config),
     ("C14.optional_presence", rule_optional_presence),
     ("C14.ranges", rule_ranges),
 ]
 
 CONTROLS = [
+    {"rule": "C14.checksum_split", "name": "multipath expansion splits the checksum off by hand", "module": DS,
+     "edit": lambda ctx: M.sub_expr(ctx, f"{DS}.multipath_descriptors", lambda n: isinstance(n, ast.Call) and call_name(n) == "strip_checksum", "descriptor.partition('#')[0]")},
     {"rule": "C14.wallet_config", "name": "position_of asks the descriptor without the private keys", "module": "btclib.wallet.descriptor_wallet",
      "edit": lambda ctx: M.sub_module_expr(ctx, "btclib.wallet.descriptor_wallet", M.is_text("descriptor.index_of(script_pub_key, last_index, self.prv_keys)"), "descriptor.index_of(script_pub_key, last_index)")},
     {"rule": "C14.optional_presence", "name": "the key origin is rendered only when truthy", "module": "btclib.descriptors.key_expression",
